@@ -4391,8 +4391,19 @@ impl Handler {
                             acting_kg = Some(name.clone());
                         }
                         statement::Statement::Meta(statement::MetaCommand::KgCreate(name)) => {
-                            created_here.push(name.clone());
-                            acting_kg = Some(name.clone());
+                            // Creating a KG that already exists fails when the program
+                            // runs: nothing is created and the acting KG does not change,
+                            // so the statements after it are still checked against it.
+                            let exists = self
+                                .storage
+                                .read()
+                                .list_knowledge_graphs()
+                                .iter()
+                                .any(|k| k == name);
+                            if !exists {
+                                created_here.push(name.clone());
+                                acting_kg = Some(name.clone());
+                            }
                         }
                         _ => {}
                     }
@@ -4589,9 +4600,20 @@ impl Handler {
         // Extracting these from the parsed statement avoids fragile string matching
         // on the result messages.
         let (kg_create_name, kg_drop_name) = match statement::parse_statement(trimmed) {
-            Ok(statement::Statement::Meta(statement::MetaCommand::KgCreate(name))) => {
+            // Only a KG this request really creates makes the caller its owner: a
+            // `.kg create` of an existing KG fails, and a later `.kg use` of the same
+            // name must not be mistaken for a successful create.
+            Ok(statement::Statement::Meta(statement::MetaCommand::KgCreate(name)))
+                if !self
+                    .storage
+                    .read()
+                    .list_knowledge_graphs()
+                    .iter()
+                    .any(|k| *k == name) =>
+            {
                 (Some(name), None)
             }
+            Ok(statement::Statement::Meta(statement::MetaCommand::KgCreate(_))) => (None, None),
             Ok(statement::Statement::Meta(statement::MetaCommand::KgDrop(name))) => {
                 (None, Some(name))
             }
